@@ -10,6 +10,8 @@ d  pipeline wiring: builder by point kind, form name 'physical'
 
 c(i)-gamma  the gamma of the local frame is the equilibrium's distance ratio (C04.b quintic rule, re-filed)
 d-memo  caches on the Hamiltonian construction path are keyed by point and degree (hv.memo)
+
+d-facade (round 3)  LibrationPoint.hamiltonian_system / .hamiltonian return the requested form at the requested degree (model centre manifold)
 """
 from __future__ import annotations
 
